@@ -571,6 +571,11 @@ func faultfree(g *gen, r *rand.Rand) {
 }
 
 func genC01(prop, tier string, r *rand.Rand) *Scn {
+	if r.IntN(7) == 0 {
+		// a batch node is a node: prep once, then only item executions, then post
+		// at most once and only when every item execution is over
+		return genC09(prop, tier, r)
+	}
 	sc := genC01base(prop, tier, r)
 	if r.IntN(4) == 0 {
 		withCancellation(sc, r)
@@ -940,6 +945,9 @@ func genC08(prop, tier string, r *rand.Rand) *Scn {
 		budget, wait = 2+r.IntN(2), pick(r, []int{10, 20, 30})
 		g.failP = 0.3
 	}
+	if r.IntN(8) == 0 {
+		return genC08nested(g, r)
+	}
 	n := g.rootBatch(ni, budget, wait, conc, stop, nil)
 	g.timing(n)
 	if wait > 0 {
@@ -981,6 +989,27 @@ func genC08(prop, tier string, r *rand.Rand) *Scn {
 	return g.sc
 }
 
+// genC08nested: one item of an outer batch runs a batch of its own (with the
+// context it was handed); the inner batch's configured limit is as usable as
+// anywhere else: its first min(c, n) executions park until all of them have started.
+func genC08nested(g *gen, r *rand.Rand) *Scn {
+	g.failP = 0
+	ic := 2 + r.IntN(3)
+	inner := g.rootBatch(ic+r.IntN(4), 1, 0, ic, false, nil)
+	for i := range inner.Visits[0].Items {
+		inner.Visits[0].Items[i].Exec = []Outcome{{Pay: "int", Gate: "barrier"}}
+		inner.Visits[0].Items[i].Pay = "int"
+	}
+	g.sc.Nodes = g.sc.Nodes[:inner.ID+1] // (drop a flow rootBatch may have wrapped around it)
+	outer := g.rootBatch(1+r.IntN(5), 1, 0, r.IntN(4), false, nil)
+	for i := range outer.Visits[0].Items {
+		outer.Visits[0].Items[i].Exec = []Outcome{{Pay: "int"}}
+		outer.Visits[0].Items[i].Pay = "int"
+	}
+	outer.Visits[0].Items[r.IntN(len(outer.Visits[0].Items))].Exec[0].Nested = inner.ID + 1
+	return g.sc
+}
+
 func genC09(prop, tier string, r *rand.Rand) *Scn {
 	g := newGen(prop, tier, r)
 	g.failP = 0
@@ -1010,6 +1039,18 @@ func genC09(prop, tier string, r *rand.Rand) *Scn {
 	fail(f)
 	for k := r.IntN(3); k > 0; k-- {
 		fail(r.IntN(ni))
+	}
+	if conc == 0 && r.IntN(8) == 0 {
+		// an exec that panics (with a non-error value): the panic may reach the
+		// caller, or be reported as that item's error - never as a success
+		for i := range vs.Items {
+			vs.Items[i].Exec = []Outcome{{Pay: "int"}}
+			vs.Items[i].Fb = nil
+		}
+		vs.Items[r.IntN(ni)].Exec[0].Panic = true
+		n.Settings = nil
+		setBatchConfig(g, n, 1, 0, 0, stop)
+		return g.sc
 	}
 	if r.IntN(5) == 0 {
 		// second sentence under cancellation: items the cancellation kept from
